@@ -10,6 +10,8 @@ type Rendered struct {
 	TextDefined bool   // false for an all-blank line
 	Caret       int    // number of columns before the caret
 	CaretOK     bool   // false when the position is on a line break or inside the trimmed blanks
+	// LineStart, LineEnd: the raw line is b[LineStart:LineEnd] (without its line break)
+	LineStart, LineEnd int
 }
 
 // convention: 0 none/LF, 1 CR, 2 CRLF, -1 mixed
@@ -77,7 +79,7 @@ func Render(b []byte, pos int) Rendered {
 	for e < len(b) && !isBreakByte(e) {
 		e++
 	}
-	r := Rendered{Line: line}
+	r := Rendered{Line: line, LineStart: start, LineEnd: e}
 	lead := start
 	for lead < e && (b[lead] == ' ' || b[lead] == '\t') {
 		lead++
